@@ -395,12 +395,12 @@ Definition global_size_limit (c : ctx) : N :=
   | CTap => MAX_BLOCK_WEIGHT
   end.
 
-(* check_global_consensus_validity: NOT recursive, looks at one node; note PkH keys are
-   not looked at *)
+(* check_global_consensus_validity: NOT recursive, looks at one node; PkK and PkH keys alike
+   (/repo bd3f29d9) *)
 Definition check_global_consensus (c : ctx) (n : node) : cres :=
   let node_checked :=
     match c, n_kind n with
-    | _, KPkK => check_pks c (n_keys n)
+    | _, (KPkK | KPkH) => check_pks c (n_keys n)
     | CTap, (KMultiA | KSortedMultiA) => check_pks c (n_keys n)
     | CTap, (KMulti | KSortedMulti) => CErr CeMulti
     | _, (KMulti | KSortedMulti) => check_pks c (n_keys n)
@@ -441,14 +441,19 @@ Definition mp_step (st : mpstate) (k : keyinfo) : mpstate :=
          | MpMismatch => MpMismatch
          end
   end.
-Inductive terr := TeMultipath | TeNonStandardBare.
+Inductive terr := TeNonBase (b : base) | TeMultipath | TeNonStandardBare.
 Inductive tres := TOk | TErr (e : terr).
 
-Definition top_level_type_check (s : summary) : tres :=
+Definition top_level_multipath_check (s : summary) : tres :=
   match fold_left mp_step (all_keys (s_nodes s)) MpSingle with
   | MpMismatch => TErr TeMultipath
   | _ => TOk
   end.
+
+(* top_level_type_check: the base-type test (/repo a8ead875: Error::Validation(NonBase)), then
+   the multipath-length latch *)
+Definition top_level_type_check (s : summary) : tres :=
+  if negb (is_B (s_base s)) then TErr (TeNonBase (s_base s)) else top_level_multipath_check s.
 
 (* BareCtx::other_top_level_checks; a Check node has one child, which follows it in pre-order *)
 Definition other_top_level_checks (c : ctx) (s : summary) : tres :=
@@ -571,6 +576,8 @@ Definition ms_decode_with (c : ctx) (p : vparams) (d_ok : bool) (x : expr) : epr
 Definition ms_decode (c : ctx) := ms_decode_with c (ctx_sane c).
 Definition ms_decode_consensus (c : ctx) := ms_decode_with c (ctx_consensus c).
 
+(* Tr::new(key, Some(TapTree::leaf(ms))): no check at all on the leaf *)
+Definition tr_new_leaf (s : summary) : epres := EOk.
 (* Wsh::new / Sh::new / Bare::new on an already built Miniscript: top_level_checks only *)
 Definition wrapper_new (c : ctx) (s : summary) : epres := lift_t (top_level_checks c s).
 (* Wsh / Sh / Bare ::from_tree = Miniscript::from_tree + top_level_checks (no validate) *)
